@@ -16,7 +16,7 @@ def sh(cmd, cwd=None):
 rows = []
 for sid in sorted(os.listdir(f"{ROOT}/seeded")):
     d = f"{ROOT}/seeded/{sid}"
-    if not os.path.isdir(d) or (only and sid not in only):
+    if not os.path.isdir(d) or sid.startswith("_") or (only and sid not in only):
         continue
     pid = sid[:3]
     rc, out = sh("git status --porcelain --untracked-files=no", "/repo")
@@ -41,7 +41,7 @@ for sid in sorted(os.listdir(f"{ROOT}/seeded")):
 lines = ["# Seeded changes x checks (exit 1 = VIOLATION reported, 0 = missed, 2 = inconclusive)", "", "| seeded change | own property check | other checks that also report it |", "|---|---|---|"]
 for sid in sorted(os.listdir(f"{ROOT}/seeded")):
     p = f"{ROOT}/seeded/{sid}/meta.json"
-    if not os.path.exists(p): continue
+    if not os.path.exists(p) or sid.startswith("_"): continue
     m = json.load(open(p)); pid = sid[:3]
     runs = m.get("checks_run", {})
     own = "; ".join(f"{t}: exit {v[pid]['exit']}" for t, v in runs.items() if pid in v)
